@@ -15,29 +15,42 @@ MANIFEST = {
             "service/application lifecycle guards, files, folders with scan/restore countdowns, whole-node scan, node power FSM), "
             "for every state and every operation (and, for the timing and shadow theorems, every operation sequence by induction): "
             "a software item's or file's visible health changes in a step only if a scan covering it completes in that step and then "
-            "equals its actual health at that moment; a folder's visible health changes only when a timed or whole-node scan of it "
-            "completes; actual health of software and files changes only through the enumerated writers (attack/external write, "
-            "accepted fix, first start/run, repair/restore/corrupt requests, and the timed completion of fix, install, folder "
-            "restore); a fix ends GOOD at exactly the max(1,d)-th timestep that reaches the item (timers freeze while the node is "
-            "not ON), a folder scan/restore at exactly the max(1,d)-th timestep of a live folder on a powered-on node (a second "
-            "request while one runs is ignored), a whole-node scan fans out to every item at exactly the max(1,d)-th such "
-            "timestep after the last request. Tie: enums, defaults, countdown idioms, tick order, request guard tables and the "
-            "inventory of every writer of a health attribute regenerated from the source (Gen/Health.lean, obligations C14_gen_*) "
-            "+ differential rig R-health (real Node in a Simulation, requests and ticks, state diffed after every operation) "
-            "+ an implementation-only oracle for the statement's clauses.",
-    "note": "C14-specific: items are addressed by name. Deepening round: the item set is dynamic (Model/HealthDyn.lean, "
-            "Props/C14Dyn.lean: application install/uninstall requests, SoftwareManager.install/uninstall, create folder/file "
-            "requests, copy_file, the database restore's file replacement) - structural operations leave surviving items "
-            "untouched and new items start unscanned or inherit the visible value of the same-named file they copy/replace; "
-            "visible = shadow along every trace with installs/uninstalls; responses characterised (C14_resp_*). Where two items of "
-            "one parent share a name (created over a deleted one) the by-name restore operations of the model are not the "
-            "code's first-match semantics: the rig ends the comparison of that trace there (counted) and relies on the "
-            "identity-based implementation oracle. Game layer: PrimaiteGymEnv episodes on shipped and generated scenarios are "
-            "checked by the identity-based oracle (visible changes only with a covering scan, fix timing), not by the model.",
+            "equals its actual health at that moment - by position and, for base operations, BY NAME as describe_state() shows it "
+            "(C14_view_sw; C14_view_file under unique names); a folder's visible health changes only when a timed or whole-node scan "
+            "of it completes; actual health of software, files AND folders changes only through the enumerated writers "
+            "(attack/external write, accepted fix, first start/run, repair/restore/corrupt requests, and the timed completion of fix, "
+            "install, folder scan, folder restore); a fix ends GOOD at exactly the max(1,d)-th timestep that reaches the item, in "
+            "EVERY operating state of its service/application (timer table C14_timer_*: fix counts iff the node is ON; an "
+            "installation iff ON and INSTALLING; folder timers iff ON and the folder not deleted; node scan iff ON), an installation "
+            "ends RUNNING/GOOD at exactly the max(1,d)-th such timestep for EVERY continuation (C14_install_exact), a folder "
+            "scan/restore at exactly the max(1,d)-th timestep of a live folder on a powered-on node, a whole-node scan fans out at "
+            "exactly the max(1,d)-th such timestep after the last request. A file replaced by DatabaseService.restore_backup keeps, "
+            "under its name, the visible health the replaced file showed (C14_view_db_restore; new folder when the database folder "
+            "was deleted); the restore that a completing database fix runs INSIDE a timestep is modelled (DOp.tickDb) and proved "
+            "phase-wise. Tie: enums, defaults, countdown idioms, tick order, request guard tables regenerated from the source "
+            "(obligations C14_gen_*), plus the STRUCTURED INVENTORY of every write of a health / visibility / countdown field in the "
+            "whole tree (80 rows: file, function, field, kind, value, guard), of every call site of a writer method (45 rows) and "
+            "of every apply_timestep body on the path simulation -> item, each row paired with the model event that stands for it "
+            "(C14_gen_inventory, C14_gen_triggers, C14_gen_tick_bodies; theorems C14_inv_* state the property against that table) "
+            "+ differential rig R-health (real Node of every kind in a Simulation, requests and ticks, whole state AND the by-name "
+            "describe_state view diffed after every operation) + an implementation-only oracle for the statement's clauses.",
+    "note": "C14-specific: items are addressed by name. The item set is dynamic (Model/HealthDyn.lean, Props/C14Dyn.lean: "
+            "application install/uninstall requests, SoftwareManager.install/uninstall, create folder/file requests, copy_file, "
+            "the database restore) - structural operations leave surviving items untouched and new items start unscanned or "
+            "inherit the visible value of the same-named file they copy/replace (StructOk; the ACTUAL health of a restored copy is "
+            "an input: whatever the backup server delivered). What the network does in a restore (leftover download cleared? copy "
+            "arrived, how healthy?) is observed on the implementation and given to the model as input; the service's GOOD after a "
+            "successful Python-API restore is described by the rig as an external write. Where two items of one parent share a name "
+            "(created over a deleted one) the by-name restore operations of the model are not the code's first-match semantics: the "
+            "rig ends the comparison of that trace there (counted) and relies on the identity-based implementation oracle. Timing "
+            "theorems are stated for base-operation sequences (not lifted over install/uninstall/tickDb steps). Game layer: "
+            "PrimaiteGymEnv episodes on shipped and generated scenarios are checked by the identity-based oracle, not by the model. "
+            "revealed_to_red, red_scan_countdown and _scanned_this_step are inventoried but not modelled (not C14 observables).",
     "technique": "Lean 4 theorems over an executable health model; model tied by regenerated tables and a differential rig",
     "design_ref": "5/C14",
 }
-MODULES = ["PrimaiteModel.Lemmas.HealthEff", "PrimaiteModel.Props.C14", "PrimaiteModel.Props.C14Gen", "PrimaiteModel.Props.C14Dyn"]
+MODULES = ["PrimaiteModel.Lemmas.HealthEff", "PrimaiteModel.Props.C14", "PrimaiteModel.Props.C14Gen", "PrimaiteModel.Props.C14Dyn",
+           "PrimaiteModel.Props.C14Inv", "PrimaiteModel.Props.C14Life"]
 EXE = "drv_c14"
 
 
@@ -49,6 +62,7 @@ def _tokens(line: str) -> List[Tuple[str, str]]:
     resp, dump = line.split(" | ", 1)
     out = [("resp", resp)]
     try:
+        dump, view = dump.split(" V=", 1)
         p, rest = dump.split(" S=", 1)
         s, f = rest.split(" F=", 1)
     except ValueError:
@@ -70,6 +84,10 @@ def _tokens(line: str) -> List[Tuple[str, str]]:
             fp = fi.split(":")
             for name, tok in zip(("file-name", "file-actual", "file-visible", "file-deleted"), fp):
                 out.append((name, parts[0] + "/" + fp[0] + "=" + tok))
+    # what the agent sees by name (describe_state)
+    vsw, _, vfs = view.partition(";")
+    out.append(("view-software", vsw))
+    out.append(("view-file-system", vfs))
     return out
 
 
@@ -213,6 +231,12 @@ def run(ctx: Ctx):
         cases.append((f"ifix:{k}", c))
     for k, c in enumerate(rig.overlap_scan_cases(durs=ctx.scale((0, 1, 2, 6), (0, 1, 2, 3, 6)))):
         cases.append((f"oscan:{k}", c))
+    # every timed process x every lifecycle / power disturbance x every offset (enumerated)
+    for k, c in enumerate(rig.lifecycle_timer_cases(durs=ctx.scale((1, 2, 3), (0, 1, 2, 3, 5)))):
+        cases.append((f"lct:{k}", c))
+    # the fix of a database service whose completion restores the backup inside a timestep (enumerated)
+    for k, c in enumerate(rig.db_fix_cases(durs=ctx.scale((0, 1, 3), (0, 1, 2, 3, 5)))):
+        cases.append((f"dbfix:{k}", c))
     # dynamic item sets: install / uninstall, create folder / file (also over deleted names), copy; database restore
     drng = ctx.rng.fork("dyn")
     for k in range(ctx.scale(500, 5000)):
@@ -259,6 +283,12 @@ def run(ctx: Ctx):
             cut = model.index("ambiguous")
             model = model[:cut + 1]
         ctx.count("family:" + case.get("family", name.split(":")[0]))
+        ctx.count("node-kind:" + case.get("node", {}).get("kind", "scenario" if "scenario" in case else "computer"))
+        for group in resolved or []:
+            for l in group:
+                if l[0] in ("tickdb", "dbrestore"):
+                    # what the network did in a database restore (input of the model): leftover cleared? copy arrived (health)?
+                    ctx.count(f"restore:{l[0]}:cleared={l[1]}:arrived={l[2]}")
         tags = _events([m for m in model if m != "ambiguous"], case["ops"])
         ctx.case(case, bool(tags))
         for t in tags:
